@@ -47,7 +47,7 @@ Fixpoint synced_cnt (open : bool) (cnt synced : nat) (h : list api) (oks : list 
       | AOpen => synced_cnt true cnt synced t oks'
       | ASync _ _ _ => synced_cnt open cnt (if ok && open then cnt else synced) t oks'
       | AClose _ _ _ => synced_cnt false cnt (if ok && open then cnt else synced) t oks'
-      | AFlush _ _ => synced_cnt open cnt synced t oks'
+      | AFlush _ _ | AOpenFail _ => synced_cnt open cnt synced t oks'
       end
   | _, _ => synced
   end.
